@@ -44,7 +44,7 @@ func init() {
 		},
 		Batches:  func(tier string) int { return 16 },
 		Run:      runC14,
-		Required: []string{"lookups_checked", "boundary_lookups", "equal_epoch_schedules", "chain_states_checked", "upgrades_seen_altair", "upgrades_seen_bellatrix", "upgrades_seen_capella", "upgrades_seen_deneb", "sig_accept", "sig_reject", "envelope_roundtrips", "constants_checked"},
+		Required: []string{"lookups_checked", "boundary_lookups", "equal_epoch_schedules", "chain_states_checked", "upgrades_seen_altair", "upgrades_seen_bellatrix", "upgrades_seen_capella", "upgrades_seen_deneb", "sig_accept", "sig_reject", "envelope_roundtrips", "envelope_roundtrips_electra", "constants_checked"},
 	})
 }
 
@@ -258,6 +258,81 @@ func runC14(b *fw.B) {
 			last = 40
 		}
 		c14Chain(b, &chainSpec, versions, chainEpochs, last, schedDesc, sI)
+		// forks the chain cannot be advanced into: the block <-> envelope conversion and the envelope signature check
+		// do not need a chain
+		for fi := 4; fi < len(epochs); fi++ {
+			if epochs[fi] != far {
+				c14EnvelopeOnly(b, &spec, versions, fi+1, epochs[fi], schedDesc)
+			}
+		}
+	}
+}
+
+// c14EnvelopeOnly: a block of fork `want` at the first slot of epoch e: envelope preserves root/header/signature/body,
+// verifies under the version of its slot and under no other.
+func c14EnvelopeOnly(b *fw.B, spec *common.Spec, versions []common.Version, want int, e common.Epoch, schedDesc string) {
+	sks, pubs := simKeys(8)
+	gvr := common.Root{0x77, byte(want)}
+	dec := beacon.NewForkDecoder(spec, gvr)
+	slot := common.Slot(uint64(e) * uint64(spec.SLOTS_PER_EPOCH))
+	dg := dec.ForkDigest(e)
+	alloc, aerr := dec.BlockAllocator(dg)
+	if aerr != nil {
+		return
+	}
+	blk := alloc()
+	if c14MessageRoot(spec, blk) == (common.Root{}) {
+		b.Inc("envelope_only_block_types_without_helper")
+		return // a block type this harness has no accessors for (fulu has no block type of its own)
+	}
+	proposer := common.ValidatorIndex(b.Rng.IntN(8))
+	parent, stRoot := common.Root{byte(e), 17}, common.Root{byte(e), 19}
+	c14FillBlock(blk, slot, proposer, parent, stRoot, b)
+	b.Case("envelope-only", fmt.Sprintf("%s block at slot %d (%s)", forkNames[want], slot, schedDesc))
+	var env *common.BeaconBlockEnvelope
+	if !b.NoPanic("envelope/panic", func() { env = blk.Envelope(spec, dg) }) {
+		return
+	}
+	msgRoot := c14MessageRoot(spec, blk)
+	if env.BlockRoot != msgRoot || env.Slot != slot || env.ProposerIndex != proposer || env.ParentRoot != parent || env.StateRoot != stRoot {
+		b.Violate("envelope/header-mismatch", fmt.Sprintf("%s: %s block -> envelope changed root or header fields", schedDesc, forkNames[want]), nil)
+		return
+	}
+	for vi, ver := range versions {
+		sr := refSigningRoot(msgRoot, refDomain(common.DOMAIN_BEACON_PROPOSER, ver, gvr))
+		sig := blsu.Sign(sks[proposer], sr[:])
+		c14SetSig(blk, common.BLSSignature(sig.Serialize()))
+		env2 := blk.Envelope(spec, dg)
+		var ok bool
+		if !b.NoPanic("envelope/verify/panic", func() {
+			ok = env2.VerifySignature(spec, gvr, proposer, &common.CachedPubkey{Compressed: pubs[proposer]})
+		}) {
+			return
+		}
+		if ver == versions[want] {
+			if !ok {
+				b.Violate("envelope/valid-signature-refused", fmt.Sprintf("%s: %s block at slot %d signed under the version of its slot does not verify through the envelope", schedDesc, forkNames[want], slot), nil)
+				return
+			}
+			b.Inc("sig_accept")
+			var back common.SpecObj
+			var berr error
+			if !b.NoPanic("envelope/back/panic", func() { back, berr = beacon.EnvelopeToSignedBeaconBlock(env2) }) {
+				return
+			}
+			if berr != nil || !c14SameBlock(spec, blk, back) {
+				b.Violate("envelope/roundtrip-mismatch", fmt.Sprintf("%s: %s block -> envelope -> block is not the same block (%v)", schedDesc, forkNames[want], berr), nil)
+				return
+			}
+			b.Inc("envelope_roundtrips")
+			b.Inc("envelope_roundtrips_" + forkNames[want])
+		} else if vi != want {
+			b.Inc("sig_reject")
+			if ok {
+				b.Violate("envelope/wrong-version-accepted", fmt.Sprintf("%s: %s block at slot %d signed under the %s version verifies", schedDesc, forkNames[want], slot, forkNames[vi]), nil)
+				return
+			}
+		}
 	}
 }
 
@@ -456,6 +531,10 @@ func c14FillBlock(blk any, slot common.Slot, proposer common.ValidatorIndex, par
 		x.Message.Slot, x.Message.ProposerIndex, x.Message.ParentRoot, x.Message.StateRoot = slot, proposer, parent, stRoot
 		x.Message.Body.Graffiti = graffiti
 		x.Message.Body.SyncAggregate.SyncCommitteeBits = make(altair.SyncCommitteeBits, 4)
+	case *electra.SignedBeaconBlock:
+		x.Message.Slot, x.Message.ProposerIndex, x.Message.ParentRoot, x.Message.StateRoot = slot, proposer, parent, stRoot
+		x.Message.Body.Graffiti = graffiti
+		x.Message.Body.SyncAggregate.SyncCommitteeBits = make(altair.SyncCommitteeBits, 4)
 	}
 }
 
@@ -470,6 +549,8 @@ func c14SetSig(blk any, sig common.BLSSignature) {
 	case *capella.SignedBeaconBlock:
 		x.Signature = sig
 	case *deneb.SignedBeaconBlock:
+		x.Signature = sig
+	case *electra.SignedBeaconBlock:
 		x.Signature = sig
 	}
 }
@@ -486,6 +567,8 @@ func c14MessageRoot(spec *common.Spec, blk any) common.Root {
 	case *capella.SignedBeaconBlock:
 		return x.Message.HashTreeRoot(spec, hFn)
 	case *deneb.SignedBeaconBlock:
+		return x.Message.HashTreeRoot(spec, hFn)
+	case *electra.SignedBeaconBlock:
 		return x.Message.HashTreeRoot(spec, hFn)
 	}
 	return common.Root{}
